@@ -238,18 +238,23 @@ check('C16', 'proof',
 
 check('C05', 'proof',
       'Lean theorems for every table, spelling and numeral: after add_dict_to_unit_map a spelling maps to the key of the '
-      'FIRST row that lists it (unitmap_lookup / unitmap_listed: a listed spelling maps to its own canonical unit unless an '
-      'earlier row lists it too), the parser\'s unit key for `number rest` / `prefix number` is exactly the stripped rest / '
-      'prefix (key_assembly_suffix / _prefix), the lookup then answers the mapped unit (parse_suffix_unit), and compound '
-      'amounts are exactly N + M/10^k (compound_value_exact, Decimal arithmetic of the repaired code). Tie: the model '
-      're-binds the tables of all 33 registered parser configurations and must reproduce their unit_map entry for entry; '
-      'real NumberWithUnitParser.parse vs parseUnit on every row; and EVERY (culture, type, unit, spelling) row (~12.5k) '
-      'goes through recognize_currency/dimension/temperature/age with the property oracle (unit, value, span, ISO code), '
-      'plus all main/fraction currency pairs with an English spelling.',
-      TB + 'Not modelled: the extractor (StringMatcher/number extractor/ambiguity filters) that decides which span reaches the '
-      'parser — covered only by the exhaustive table replay. 467 rows that the unchanged tree fails are listed one by one in '
-      'known_findings.json.',
-      'Lean 4 proof (first-writer-wins characterisation of bind_dictionary, loop invariants of the key assembly) + exhaustive table correspondence',
+      'FIRST row that lists it (unitmap_lookup / unitmap_listed), the parser\'s unit key for `number rest` / `prefix number` is '
+      'exactly the stripped rest / prefix (key_assembly_suffix / _prefix), the lookup answers the mapped unit '
+      '(parse_suffix_unit), compound amounts are exactly N + M/10^k (compound_value_exact). THE EXTRACTOR is modelled too '
+      '(NumberWithUnitExtractor.extract, _extract_separate_units, _select_candidates, expand_half_suffix, '
+      'BaseMergedUnitExtractor grouping) and proved for ANY StringMatcher / number-extractor / regex behaviour with spans '
+      'inside the string: nwu_longest_suffix_wins, nwu_suffix_span, nwu_prefix_span, nwu_result_text_is_slice, '
+      'nwu_relative_number_start (exactly what the key-assembly theorems assume), end to end extract_then_parse_unit '
+      '(`numeral blanks spelling` => one result whose parsed unit is the spelling\'s unit), select_no_conflict_identity, '
+      'merged_result_text_is_slice. Tie: bound unit_map of all 33 parser configurations entry for entry; real parser per '
+      'row; ~20k RECORDED calls of the real extract / _select_candidates / BaseMergedUnitExtractor.extract replayed through '
+      'the Lean model; EVERY (culture, type, unit, spelling) row (~12.5k) through recognize_* with the property oracle; all '
+      'main/fraction currency pairs, each asked after a mismatched pair in the same process.',
+      TB + 'Parameters of the extractor model (recorded per call, not modelled): StringMatcher results (C16 proves the matcher), number '
+      'extractor results, the gating regexes and the keep-masks of _filter_ambiguity. Negative theorems with witnesses for '
+      'extractor defects outside the property\'s quantifier (a bracketed match tying max_len; _select_candidates IndexError). '
+      '467 failing rows are listed one by one in known_findings.json.',
+      'Lean 4 proof (first-writer-wins characterisation, loop invariants of key assembly, fold invariants of the extractor) + recorded-call and exhaustive table correspondence',
       'DESIGN.md §3 C05')
 
 check('C17', 'proof',
